@@ -15,6 +15,7 @@ type ValInfo struct {
 	Key  KeyNum
 	WKey KeyNum // BLS withdrawal key (0 when the credentials are ETH1 from the start)
 	Addr common.Eth1Address
+	Odd  byte // credentials prefix when neither 0x00 nor 0x01
 }
 
 // RunResult of a transition executed under recover().
@@ -199,12 +200,15 @@ type Chain struct {
 	SlotSteps                 []HonestSlots
 	prevEff                   []common.Gwei
 	cancelDone                map[string]bool
+	partialKeys               map[KeyNum]bool
 	zeroKeys                  map[KeyNum]bool
 	zeroIndex                 map[common.ValidatorIndex]bool
 	depForkIndex              uint64
 	depForkKey                KeyNum
 	depForkArmed              bool
 	Phase0LeakMix             bool
+	SlashExiting              bool // slash validators whose exit is initiated with evidence dated outside their window
+	cloneBlockDone            [5]bool
 	SyncSeat                  bool
 	seatPhase                 int
 	seatM                     common.ValidatorIndex
